@@ -763,7 +763,7 @@ func main() {
 	// 3. structured
 	rng := common.NewRNG(f.Seed)
 	rs := rng.Fork()
-	ns := 30000
+	ns := 22000
 	if f.Tier == "thorough" {
 		ns = 150000
 	}
